@@ -807,6 +807,7 @@ handle_null_request(int tun_fd, int dns_fd, struct dnsfd *dns_fds, struct query 
 
 		if (version == PROTOCOL_VERSION) {
 			userid = find_available_user();
+			VERIF_USERID_HINT(userid);
 			if (userid >= 0) {
 				int i;
 
